@@ -474,7 +474,7 @@ pub fn c10_parts(quick: bool) -> (Vec<EwSpec>, Vec<Scenario>) {
                     let mut env = EwEnv::basic(0, (26_000 / cad) as usize + (t / cad) as usize + 40);
                     env.fair_delta = cad; env.fates = DF_NONE; env.stop_when_done = false;
                     if which == 0 { env.lose_syn = k; } else { env.lose_synack = k; }
-                    env.dev_start = 0; env.dev_rounds = if quick { 4 } else { 8 }; env.deltas = leak_deltas(cad, &[0, 1, 1999, 2000, 2001]);
+                    env.dev_start = 0; env.dev_rounds = if quick { 4 } else { 8 }; env.deltas = leak_deltas(cad, &[0, 1, 1999, 2000, 2001, 3000, 7000, 25_000]);
                     scs.push(sc("C10.handshake", &cfg, vec![at(0, Act::Connect(0)), after_c(0, 3, Act::SDrop(0))], env, 1, EO_C10));
                 }
             }
